@@ -97,6 +97,23 @@ def job_estimate(j):
             pass
         L_ = get_lib(j['lib'])
         lib = GroupLibrary(L_.scheme, L_.contents, L_.uq_contents)
+    if j.get('reordered_basis'):
+        # a pathless library whose uncertainty basis is re-ordered IN PLACE (matrix rows and columns permuted with it: the same
+        # quadratic form over the same names) after it was already asked for a standard error (batch 12: positions memoised per list object)
+        import numpy as _np
+        L_ = get_lib(j['lib'])
+        uq_ = dict(L_.uq_contents)
+        uq_['descriptors'] = list(L_.uq_contents['descriptors'])
+        uq_['mat'] = _np.array(L_.uq_contents['mat'], dtype=float)
+        lib = GroupLibrary(L_.scheme, L_.contents, uq_)
+        try:
+            d0 = [d for d in lib.uq_contents['descriptors'] if 'thermochem' in lib[d]][0]
+            e0 = lib.Estimate({d0: 1}, 'thermochem')
+            getattr(e0, GETTERS['h'] + '_SE')(j['Ts'][0])
+        except Exception:
+            pass
+        lib.uq_contents['descriptors'].reverse()
+        lib.uq_contents['mat'] = _np.ascontiguousarray(_np.asarray(lib.uq_contents['mat'])[::-1, ::-1])
     if j.get('copied_then_widened'):
         # the groups of this library were copied into another library (Update), and the COPIES were then widened by a further merge:
         # the library estimated from below is the untouched original
